@@ -255,7 +255,7 @@ func run(req request) result {
 		var cols []string
 		for j, t := range req.Schema {
 			if t == "VARCHAR" {
-				t = "VARCHAR(400)"
+				t = "VARCHAR(2)" // the declared width is not a limit in mkdb: values of any length up to the row limit must come back whole
 			}
 			cols = append(cols, colName(j+1)+" "+t)
 		}
@@ -275,7 +275,7 @@ func run(req request) result {
 			case "BOOLEAN":
 				cd.DataType = sql.BooleanType{}
 			case "VARCHAR":
-				cd.DataType = sql.CharacterStringType{Type: sql.T_VARCHAR, Len: 400}
+				cd.DataType = sql.CharacterStringType{Type: sql.T_VARCHAR, Len: 2}
 			default:
 				return result{Err: "unknown column type " + t}
 			}
